@@ -86,9 +86,68 @@ class FlowFidelity:
         self.expect[line] = exp
         return line
 
+    def big_tpl(self, g, rng, tid, opts=None):
+        while True:
+            t, o = g.rand_tpl(tid=tid, opts=opts, allow_var=(rng.random() < 0.3))
+            if g.min_rec_len(t) > 4:
+                return t, o
+
+    def data_of(self, g, rng, t):
+        wires, vals, lens = b"", [], []
+        for _ in range(rng.choice([1, 2, 3])):
+            w, v = g.rand_record(t)
+            wires += w; vals.append(v); lens.append(len(w))
+        return g.enc_set(t.tid, wires), ("data", t.tid, vals, lens, 0)
+
+    # "sandwich": within ONE message, data for id X, then a (re)definition of X (template or options template, fresh or
+    # differing in one respect only), then data for X again - the latest definition must be in force at once, and nothing
+    # remembered about X earlier in the message may survive the redefinition
+    def gen_sandwich(self, g, rng):
+        addr = rand_addr(rng)
+        orc = Oracle(self.proto, g.model)
+        tid = rng.choice([256, 257, 300, 999, 65535, rng.randint(256, 65535)])
+        t1, o1 = self.big_tpl(g, rng, tid)
+        hist = []
+        known_before = rng.random() < 0.6
+        if known_before:
+            hist.append(([g.enc_set(g.tpl_set_id(o1), g.enc_tpl(t1, o1))], [("tpl", [(t1, o1)])]))
+        sets, abstract = [], []
+        cur = (t1, o1) if known_before else None
+        for _ in range(rng.choice([1, 2, 3])):
+            # data for X under what is in force now (unknown id: any octets, must yield nothing)
+            if cur is not None:
+                s_, a_ = self.data_of(g, rng, cur[0]); sets.append(s_); abstract.append(a_)
+            else:
+                body = bytes(rng.randrange(256) for _ in range(rng.choice([8, 12, 20])))
+                sets.append(g.enc_set(tid, body)); abstract.append(("raw", tid, body))
+            # the redefinition
+            if cur is not None and rng.random() < 0.6:
+                t2, o2 = g.mutate_tpl(cur[0], cur[1])
+                if g.min_rec_len(t2) <= 4:
+                    t2, o2 = self.big_tpl(g, rng, tid)
+            else:
+                t2, o2 = self.big_tpl(g, rng, tid, opts=rng.random() < 0.6)
+            sets.append(g.enc_set(g.tpl_set_id(o2), g.enc_tpl(t2, o2))); abstract.append(("tpl", [(t2, o2)]))
+            cur = (t2, o2)
+        s_, a_ = self.data_of(g, rng, cur[0]); sets.append(s_); abstract.append(a_)
+        hist.append((sets, abstract))
+        if rng.random() < 0.5:     # and the definition stays in force for the next message
+            s_, a_ = self.data_of(g, rng, cur[0]); hist.append(([s_], [a_]))
+        toks, exp = [], []
+        for sets_, abstract_ in hist:
+            p = g.enc_msg(sets_)
+            if len(p) > 65000:
+                return self.gen_sandwich(g, rng)
+            toks += [hx(addr), hx(p)]
+            recs, nf = orc.expected_sets(addr, abstract_)
+            exp.append({"recs": recs, "nf": nf, "header": header_of(self.proto, p), "go_rule": recs})
+        line = self.cmd + " " + " ".join(toks)
+        self.expect[line] = exp
+        return line
+
     def cases(self, tier, rng, budget):
         g = Gen(self.proto, go_model(), rng)
-        return [self.gen_case(g, rng) for _ in range(budget)]
+        return [self.gen_sandwich(g, rng) if i % 6 == 5 else self.gen_case(g, rng) for i in range(budget)]
 
     def post(self, lines, impl, model):
         return impl, subst_floats(model)
@@ -131,7 +190,9 @@ class FlowFidelity:
         return ("structured histories from the Python encoder: 1-3 templates (plain/options, IANA + installed enterprise elements, "
                 "fixed, reduced-size, over-long and 65535 variable-length fields with 1- and 3-octet prefixes), announced in the same "
                 "or an earlier message, then 1-3 data sets of 1-12 records with 0-3 padding octets (less than the record length); "
-                "4-byte, v4-mapped and IPv6 exporters. non-trivial = distinct history whose model outcome carries >= 1 record")
+                "4-byte, v4-mapped and IPv6 exporters; every sixth history is a 'sandwich': inside one message data for id X, a (re)definition of X "
+                "(template or options template; fresh, or differing from the previous one in one respect only), data for X again, up to three "
+                "times. non-trivial = distinct history whose model outcome carries >= 1 record")
 
     def trusted_base(self):
         return ["Coq 8.16.1 kernel",
